@@ -431,7 +431,7 @@ def smallest_cap(algo, K, n, k=1):
 # rewards
 
 OPEN_FAMILIES = ["neg", "const", "zero", "tied", "noisy", "large", "large_off", "unit", "drift", "altext",
-                 "incr", "decr", "best_first", "best_last", "twoval", "quant5", "bern", "negbern", "nonpos3"]
+                 "incr", "decr", "best_first", "best_last", "twoval", "quant5", "bern", "negbern", "nonpos3", "hugeneg"]
 HUGE_FAMILIES = ["huge"]
 CLOSED_FAMILIES = ["cl_hump", "cl_sine", "cl_garland", "cl_step", "cl_negdist"]
 
@@ -448,6 +448,8 @@ def open_rewards(fam, seed, T):
         return rng.choice([0.0, 1.0, -1.0], size=T)
     if fam == "quant5":
         return rng.choice([0.0, 0.25, 0.5, 0.75, 1.0], size=T)
+    if fam == "hugeneg":
+        return -(10.0 ** rng.uniform(19, 21, T))
     if fam == "negbern":
         return -rng.choice([0.0, 1.0], size=T, p=[0.3, 0.7])
     if fam == "nonpos3":
